@@ -204,6 +204,19 @@ fn viol(check: &'static str, sig: String, detail: String) -> Option<Violation> {
 }
 
 impl ReaderProp {
+    fn base_meta(&self) -> Meta {
+        Meta {
+            level: "exploration",
+            rule: "seeded operation histories (3..63 ops) on a real DeferredReader over a SimSource with a generated read plan (short reads, Interrupted, terminal error/EOF at any offset; constructors from_read / from_boxed_dyn_read / from_buf_reader over a partly consumed std BufReader); a run is non-trivial iff the source served at least two successful reads (the schedule mattered); distinct = distinct (constructor, source-trace hash, op-history hash)",
+            assumptions: vec![
+                "the reference model takes the number of delivered bytes from the simulated source's own log, it never guesses what a read returned",
+                "for from_buf_reader the model cannot see inside std's Chain/Cursor, so between operations it requires window_end <= bytes delivered by the source (equality once the source ended) instead of equality",
+            ],
+            real: vec!["flussab::DeferredReader", "std::io::BufReader", "std::io::Chain", "std::io::Cursor"],
+            stub: vec!["byte source (SimSource)"],
+        }
+    }
+
     fn check_name(&self, what: &str) -> &'static str {
         match (self.mode, what) {
             (Mode::C02, "window") => "C02.window",
@@ -428,18 +441,18 @@ impl Prop for ReaderProp {
     }
 
     fn meta(&self) -> Meta {
-        Meta {
-            level: "exploration",
-            rule: "seeded operation histories (3..63 ops) on a real DeferredReader over a SimSource with a generated read plan (short reads, Interrupted, terminal error/EOF at any offset; constructors from_read / from_boxed_dyn_read / from_buf_reader over a partly consumed std BufReader); a run is non-trivial iff the source served at least two successful reads (the schedule mattered); distinct = distinct (constructor, source-trace hash, op-history hash)",
-            assumptions: vec![
-                "the reference model takes the number of delivered bytes from the simulated source's own log, it never guesses what a read returned",
-                "for from_buf_reader the model cannot see inside std's Chain/Cursor, so between operations it requires window_end <= bytes delivered by the source (equality once the source ended) instead of equality",
-            ],
-            real: vec!["flussab::DeferredReader", "std::io::BufReader", "std::io::Chain", "std::io::Cursor"],
-            stub: vec!["byte source (SimSource)"],
+        let mut m = self.base_meta();
+        match self.mode {
+            Mode::C02 => {}
+            Mode::C09 => {
+                m.rule = "same histories as C02, but the verdict is read off the source's call log: request_more() performs exactly one non-Interrupted read (at most one through from_buf_reader's Cursor), a request that buffered data already satisfies issues no read, every read during request(n)/request_byte_at_offset(k) was issued while fewer than n (k+1) bytes were buffered, operations that need no input never call the source, and the source is never called again after Ok(0) or an error; non-trivial/distinct as for C02";
+            }
+            Mode::C14 => {
+                m.rule = "C02 histories extended with crash operations: advance(n)/advance_with_buf(n) with n > buf_len() (documented panic, caught with catch_unwind, reader used again), sources that claim more bytes than they were offered (trips the load-bearing assert) or panic inside read(); after every caught panic the reference model must be unchanged and all C02 invariants must hold (buf_len is compared before buf() is touched); at all times the exposed window must be the stream's bytes; red zones behind the harness allocator's blocks must be intact at the end of the history; non-trivial/distinct as for C02";
+            }
         }
+        m
     }
-
     fn runs(&self, tier: Tier) -> u64 {
         let dbg = cfg!(debug_assertions);
         match (self.mode, tier, dbg) {
